@@ -271,6 +271,8 @@ def check_case(case):
     names = T.variables(inst) | T.variables(tgt)
     for v in case.get("pre_match", {}).values():
         names |= T.variables(v)
+    for v in sig_t.values():
+        names |= T.variables(v)          # also of bindings for names the template does not mention
     key = canon(case)
     for env in points_for(key, names):
         for salt in (1, 2):
